@@ -307,6 +307,32 @@ def e_morphology(inp):
     return [gini(d, mask=m), p.xcentroid, p.ycentroid, p.semimajor_sigma, p.orientation]
 
 
+def e_image_depth(inp):
+    from photutils.utils import ImageDepth
+    d = np.asarray(_strip(inp['data']), dtype=float)
+    mask = inp.get('mask')
+    if mask is None:
+        mask = inp.get('emptymask')
+    dep = ImageDepth(2.0, nsigma=3.0, napers=40, niters=2, mask_pad=1, seed=3, progress_bar=False)
+    return list(dep(d, mask))
+
+
+def e_epsf(inp):
+    from astropy.nddata import NDData, StdDevUncertainty
+    from astropy.table import Table
+    from photutils.psf import EPSFBuilder, extract_stars
+    d = np.asarray(_strip(inp['data']), dtype=float)
+    nd = inp.get('nddata')
+    if nd is None:
+        nd = NDData(d, uncertainty=StdDevUncertainty(np.asarray(_strip(inp['error']), dtype=float)), mask=inp.get('mask'))
+    t = inp.get('stars_table')
+    if t is None:
+        t = Table(); t['x'] = [p[0] for p in _positions()]; t['y'] = [p[1] for p in _positions()]
+    stars = extract_stars(nd, t, size=9)
+    epsf, fitted = EPSFBuilder(oversampling=1, maxiters=2, progress_bar=False)(stars)
+    return [epsf.data, [s.cutout_center for s in fitted]]
+
+
 ENTRIES = {
     'aperture_photometry': dict(f=e_aperture_photometry, uses=['data', 'error', 'mask']),
     'do_photometry': dict(f=e_do_photometry, uses=['data', 'error', 'mask']),
@@ -337,6 +363,8 @@ ENTRIES = {
     'calc_total_error': dict(f=e_calc_total_error, uses=['data', 'error']),
     'utils': dict(f=e_utils, uses=['data']),
     'morphology': dict(f=e_morphology, uses=['data', 'mask']),
+    'image_depth': dict(f=e_image_depth, uses=['data', 'mask']),
+    'epsf': dict(f=e_epsf, uses=['data', 'error', 'mask']),
 }
 
 
